@@ -462,12 +462,14 @@ func (p *parser) readEscStr(start int, term byte) string {
 	p.pos--
 	buf = append(buf, p.buf[start:p.pos]...)
 	var b byte
-top:
 	for p.pos < len(p.buf) {
 		b = p.buf[p.pos]
 		p.pos++
 		switch b {
 		case '\\':
+			if len(p.buf) <= p.pos {
+				goto fail
+			}
 			b = p.buf[p.pos]
 			p.pos++
 			switch b {
@@ -516,12 +518,12 @@ top:
 				goto fail
 			}
 		case term:
-			break top
+			return string(buf)
 		default:
 			buf = append(buf, b)
 		}
 	}
-	return string(buf)
+	p.raise("string not terminated")
 fail:
 	panic(fmt.Sprintf("0x%02x (%c) is not a valid escaped character", b, b))
 }
@@ -532,27 +534,33 @@ func (p *parser) readStr(term byte) string {
 		b := p.buf[p.pos]
 		p.pos++
 		if b == term {
-			break
+			return string(p.buf[start : p.pos-1])
 		}
 		if b == '\\' {
 			return p.readEscStr(start, term)
 		}
 	}
-	return string(p.buf[start : p.pos-1])
+	p.raise("string not terminated")
+	return ""
 }
 
 func (p *parser) readRegex() *regexp.Regexp {
 	start := p.pos
+	closed := false
 out:
 	for p.pos < len(p.buf) {
 		b := p.buf[p.pos]
 		p.pos++
 		switch b {
 		case '/':
+			closed = true
 			break out
 		case '\\':
 			p.pos++ // skip and then continue
 		}
+	}
+	if !closed {
+		p.raise("regex not terminated")
 	}
 	rx, err := regexp.Compile(string(p.buf[start : p.pos-1]))
 	if err != nil {
